@@ -72,7 +72,7 @@ Preset ==
   /\ track = "structure"
   /\ \/ in.authz = <<>> /\ in' = [in EXCEPT !.authz = <<67, 32, 120>>]                                  \* "C x"
      \/ in.hdrs = <<>> /\ in' = [in EXCEPT !.hdrs = <<[k |-> XKEY, v |-> T(7)]>>]
-     \/ in.query = <<>> /\ in' = [in EXCEPT !.query = <<[k |-> ACCESS, v |-> T(8)]>>]
+     \/ in.query = <<>> /\ \E v \in {T(8), <<>>} : in' = [in EXCEPT !.query = <<[k |-> ACCESS, v |-> v]>>]
      \/ in.form = <<>> /\ \E m \in {"urlencoded", "multipart", "none"} : in' = [in EXCEPT !.form = <<[k |-> ACCESS, v |-> T(9)]>>, !.media = m]
   /\ UNCHANGED <<track, A>>
 PickAuth ==
